@@ -73,6 +73,16 @@ theorem c13_zero_identity_rejected (L : CfgLayout) (s : Bytes)
   unfold cfgAccept
   rcases h with h | h <;> simp [h]
 
+/-- **C13.5b (foreign tag rejected)** a sector whose first six bytes differ from the current tag in any byte - the
+    layout-version byte included - is not accepted as the current layout, whatever identity follows -/
+theorem c13_foreign_tag_rejected (L : CfgLayout) (s : Bytes) (h : s.take 6 ≠ L.tag) : cfgAccept L s = false := by
+  unfold cfgAccept
+  have : (s.take 6 == L.tag) = false := beq_false_of_ne h
+  simp [this]
+
+/-- non-vacuity of C13.5b with the repository's layout: 'SUPLA' followed by the unknown version 8 and a non-zero identity -/
+example : cfgAccept Gen.cfgLayout ([83, 85, 80, 76, 65, 8] ++ List.replicate 40 1) = false := by decide
+
 /-- constants of the source tree -/
 theorem c13_layout : Gen.cfgLayout.tag = [83, 85, 80, 76, 65, 7] ∧ Gen.cfgLayout.guidLen = 16 ∧
     Gen.cfgLayout.authLen = 16 ∧ 38 ≤ Gen.cfgLayout.recLen := by decide
